@@ -53,36 +53,10 @@ Definition g_op (s : sx) : di_op :=
   if (k =? "containing")%string then OpContaining (gI (nthx 1 l))
   else if (k =? "at")%string then OpAt (gI (nthx 1 l))
   else OpDie (gI (nthx 1 l)) (gI (nthx 2 l)).
-Definition sx_answer (a : di_answer (D := Z * Z * Z)) : sx :=
+Definition sx_answer (a : di_answer (Z * Z * Z)) : sx :=
   match a with
   | ACU r => sx_res sx_cu r
   | ADIE r => sx_res sx_die r
-  end.
-
-(* spec answers for a history: stateless *)
-Definition res_of_cu (o : option cu) (e : err) : res cu := match o with Some c => Ok c | None => Err e end.
-Definition die_spec (parse_die : cu -> Z -> res (Z * Z * Z)) (cus : list cu) (size cu_ofs die_ofs : Z)
-  : res (Z * Z * Z) :=
-  if negb ((0 <=? cu_ofs) && (cu_ofs <? size)) then Err EDwarf else
-  match at_spec cus cu_ofs with
-  | None => Err EParse
-  | Some u =>
-      if (cu_die_offset u <=? die_ofs) && (die_ofs <? cu_offset u + cu_size u) then
-        match parse_die u (cu_die_offset u) with
-        | Err e => Err e
-        | Ok _ => parse_die u die_ofs
-        end
-      else Err EDwarf
-  end.
-Definition spec_answer (stream : list Z) (cus : list cu) (size : Z) (o : di_op) : sx :=
-  match o with
-  | OpContaining r =>
-      sx_res sx_cu (if negb ((0 <=? r) && (r <? size)) then Err EDwarf
-                    else res_of_cu (containing_spec cus r) (EPy "ValueError"))
-  | OpAt off =>
-      sx_res sx_cu (if negb ((0 <=? off) && (off <? size)) then Err EDwarf
-                    else res_of_cu (at_spec cus off) EParse)
-  | OpDie cu_ofs die_ofs => sx_res sx_die (die_spec (simple_die stream) cus size cu_ofs die_ofs)
   end.
 
 Open Scope string_scope.
@@ -142,5 +116,5 @@ Definition dispatch (req : sx) : sx :=
   else if op =? "di_spec" then
     let us := map g_unit (gL a2) in
     let stream := encode_units (gbool a1) us in
-    SL (map (spec_answer stream (section_units us) (zlen stream)) (map g_op (gL a3)))
+    SL (map (fun o => sx_answer (answer_spec (simple_die stream) (section_units us) (zlen stream) o)) (map g_op (gL a3)))
   else sx_err "unknown-op".
